@@ -542,6 +542,7 @@ def prog_src(prog):
             a = "(%s,)" % expr_src(s["args"][0])
         else:
             a = ", ".join(map(expr_src, s["args"]))
+        k = s.get("prim", k)
         call = f"{k}({a})"
         if s.get("base") is not None:
             call = f"baseline({k})({expr_src(s['base'])}{', ' if a else ''}{a})"
